@@ -23,3 +23,22 @@ Fixpoint list_feqb (a b : list float) : bool :=
 
 Definition fmax (x y : float) : float := if PrimFloat.ltb x y then y else x.
 Definition fmin (x y : float) : float := if PrimFloat.ltb y x then y else x.
+
+(* ---- exactly rounded summation (math.fsum): round the exact sum once ---- *)
+Definition sf_parts (f : float) : Z * Z :=
+  match Prim2SF f with
+  | S754_finite s m e => ((if s then Z.neg m else Z.pos m), e)
+  | _ => (0%Z, 0%Z)
+  end.
+Definition fsumF (l : list float) : float :=
+  let parts := filter (fun p => negb (Z.eqb (fst p) 0)) (map sf_parts l) in
+  match parts with
+  | [] => 0%float
+  | p0 :: _ =>
+    let emin := fold_left Z.min (map snd parts) (snd p0) in
+    let total := fold_left Z.add (map (fun p => (fst p * 2 ^ (snd p - emin))%Z) parts) 0%Z in
+    SF2Prim (binary_normalize prec emax total emin false)
+  end.
+
+Definition of_natF (n : nat) : float := PrimFloat.of_uint63 (Uint63.of_Z (Z.of_nat n)).
+Definition c0001F : float := 0x1.a36e2eb1c432dp-14%float.   (* 0.0001 *)
